@@ -10,7 +10,7 @@ typedef struct S_ZTSN3ipr4impl12_GLOBAL__N_114std_identifierE word_t;
 typedef struct S_ZTSN3ipr4impl12type_factoryE tfactory_t; typedef struct S_ZTSN3ipr8DecltypeE decltype_t;
 #define WORDS g__ZN3ipr4impl12_GLOBAL__N_111known_wordsE
 #define BUILTINS g__ZN3ipr4impl12_GLOBAL__N_18builtinsE
-#define NBUILTIN 27
+#define NBUILTIN ((int)(sizeof(BUILTINS) / sizeof(BUILTINS[0])))
 #define AS_TYPE_CODE @{enum:ipr::Category_code::As_type}
 /* first-base chains: every subobject below starts at the address of the complete object */
 #define NAME_OF_WORD(w) ((name_t*)(w))            /* std_identifier -> impl::Node<Identifier> -> Identifier -> ... -> Name */
@@ -23,7 +23,7 @@ static _Bool is_builtin(void* p) { for (int i = 0; i < NBUILTIN; i++) if (p == (
 /* contract of known_word(literal) (obligation C03.known_word): the table entry with that spelling; only called with string literals */
 word_t* @{known_word}(unsigned char* p)
 { unsigned long n = 0; while (n < 24 && p[n] != 0) n++;
-  for (int k = 0; k < 56; k++) if (spelled(&WORDS[k], p, n)) return &WORDS[k];
+  for (int k = 0; k < (int)(sizeof(WORDS) / sizeof(WORDS[0])); k++) if (spelled(&WORDS[k], p, n)) return &WORDS[k];
   __CPROVER_assert(0, "known_word of a spelling that is not reserved"); return 0; }
 #define CATEGORY(n) (((struct S_ZTSN3ipr4NodeE*)(n))->f_category)
 
